@@ -320,7 +320,17 @@ class FrozenSetMethod(DeserializationMethod):
     method: DeserializationMethod
 
     def deserialize(self, data: Any) -> Any:
-        return frozenset(self.method.deserialize(data))
+        values = self.method.deserialize(data)
+        try:
+            return frozenset(values)
+        except TypeError:
+            elt_errors: ErrorDict = {}
+            for i, value in enumerate(values):
+                try:
+                    hash(value)
+                except TypeError:
+                    elt_errors[i] = ValidationError("unhashable set element")
+            raise ValidationError([], elt_errors)
 
 
 @dataclass
